@@ -143,6 +143,12 @@ func pickSize(rng *vlib.Rng, c ccase, iat int, i int) int {
 // Returns false when the case must stop.
 func checkWire(c ccase, who string, iat int, w o4h.WriteRes, payload []byte, decSess, encSess string) bool {
 	if w.Stuck {
+		if iat == 2 {
+			// paranoid mode with a degenerate length table (e.g. the single value 135) pads
+			// for ever: a liveness defect of the shaping code (C09/C10), not a format matter
+			r.Count("skipped", "iat2-write-does-not-terminate(C09/C10 finding)")
+			return false
+		}
 		violate("write-stuck", "impl-oracle", who+": Write did not return", c)
 		return false
 	}
@@ -246,6 +252,13 @@ func imin(a, b int) int {
 		return a
 	}
 	return b
+}
+
+func writeLimit(iat int) time.Duration {
+	if iat == 2 {
+		return 12 * time.Second
+	}
+	return 90 * time.Second
 }
 
 func firstDiff(a, b []byte) int {
@@ -501,7 +514,7 @@ func runCase(c ccase) (retry bool) {
 		var wire []byte
 		if cliEp != nil {
 			conn, _ := cliEp.Result()
-			w := o4h.WriteOn(cliEp.Conn, conn, p)
+			w := o4h.WriteOn(cliEp.Conn, conn, p, writeLimit(c.CliIat))
 			if !checkWire(c, "client", c.CliIat, w, p, shadowS, shadowC) {
 				return
 			}
@@ -523,7 +536,7 @@ func runCase(c ccase) (retry bool) {
 		r.Count("write_size", sizeClass(len(p)))
 		if srvEp != nil {
 			conn, _ := srvEp.Result()
-			w := o4h.WriteOn(srvEp.Conn, conn, p)
+			w := o4h.WriteOn(srvEp.Conn, conn, p, writeLimit(c.SrvIat))
 			if !checkWire(c, "server", c.SrvIat, w, p, shadowC, shadowS) {
 				return
 			}
